@@ -49,15 +49,28 @@ theorem data_modes (logic t : Str) (ht : t ≠ "-".toList) (other : Str) :
     cli parse ser logic none t = cli parse ser logic (some "-".toList) t := by
   refine ⟨?_, ?_⟩ <;> simp only [cli, dataText, if_neg ht, ↓reduceIte]
 
-/-- chaining: if the text codec round-trips the first result, piping invocation 1 into invocation 2 computes
-`apply r₂ (result₁)` -/
-theorem chain (l₁ l₂ : Str) (arg : Option Str) (stdin : Str) (r₁ d₁ v₁ r₂ : Json)
+/-- chaining: piping invocation 1 into invocation 2 computes `apply r₂` on **the parsed output of the first** —
+whatever value `w` the parser makes of the printed line (the codec need not round-trip: serde_json without `float_roundtrip`
+does not re-read every float it prints) -/
+theorem chain (l₁ l₂ : Str) (arg : Option Str) (stdin : Str) (r₁ d₁ v₁ r₂ w : Json)
     (h1 : parse l₁ = some r₁) (hd : parse (dataText arg stdin) = some d₁) (hv : (apply r₁ d₁).out = .ok v₁)
-    (hlogs : (apply r₁ d₁).logs = []) (hrt : parse (ser v₁) = some v₁) (h2 : parse l₂ = some r₂) :
+    (hlogs : (apply r₁ d₁).logs = []) (hrt : parse (ser v₁) = some w) (h2 : parse l₂ = some r₂) :
     ∃ line, (cli parse ser l₁ arg stdin).stdout = [line] ∧
-      cli parse ser l₂ none line = cliEval ser r₂ v₁ := by
+      cli parse ser l₂ none line = cliEval ser r₂ w := by
   refine ⟨ser v₁, ?_, ?_⟩
   · simp [cli, cliEval, h1, hd, hv, hlogs]
   · simp [cli, dataText, h2, hrt]
+
+/-- with a codec that does round-trip the first result, the chain computes `apply r₂ (result₁)` itself -/
+theorem chain_roundtrip (l₁ l₂ : Str) (arg : Option Str) (stdin : Str) (r₁ d₁ v₁ r₂ : Json)
+    (h1 : parse l₁ = some r₁) (hd : parse (dataText arg stdin) = some d₁) (hv : (apply r₁ d₁).out = .ok v₁)
+    (hlogs : (apply r₁ d₁).logs = []) (hrt : parse (ser v₁) = some v₁) (h2 : parse l₂ = some r₂) :
+    ∃ line, (cli parse ser l₁ arg stdin).stdout = [line] ∧ cli parse ser l₂ none line = cliEval ser r₂ v₁ :=
+  chain parse ser l₁ l₂ arg stdin r₁ d₁ v₁ r₂ v₁ h1 hd hv hlogs hrt h2
+
+/-- if the printed line does not parse at all, the second invocation fails without a result line -/
+theorem chain_unparsable (l₂ line : Str) (h : parse line = none) : cli parse ser l₂ none line = ⟨[], false⟩ := by
+  unfold cli
+  cases parse l₂ <;> simp [dataText, h]
 
 end JL.Props.C18
